@@ -1461,6 +1461,9 @@ func runHistCase(o *Out, ci int, hc *histCase, nops int, distinct map[string]boo
 		}
 		hc.Ops = append(hc.Ops, opDesc)
 		observe(sol, opDesc)
+		if !tainted {
+			mixStates(o, sol)
+		}
 		if collLine == "nop" {
 			collLine = "" // nothing modelled happened (the search of BestMove itself is not part of NR.Coll): resynchronise
 		}
@@ -1853,6 +1856,7 @@ func estCorrespondence(o *Out, rec *recorder, mv nextroute.SolutionMoveStops, v 
 	}
 	vt := v.ModelVehicle().VehicleType()
 	stopGenCorrespondence(o, mv, v, gaps)
+	mixEst(o, rec, mv, v, gaps)
 	waitEstCorrespondence(o, rec, mv, v, hyp, firstIns, len(sps))
 	for _, ev := range rec.ests {
 		mx, ok := ev.Constraint.(nextroute.Maximum)
